@@ -25,7 +25,8 @@ func RealBarrier(env *core.Env, rep *core.Report, rounds int) int {
 	for r := 0; r < rounds; r++ {
 		for _, k := range []int{2, 3, 5} {
 			d := env.Sub("barrier")
-			t := task.FromCommands(`: > "$D/$ME"; n=0; while [ ! -f "$D/$PEER" ] && [ $n -lt 150 ]; do sleep 0.02; n=$((n+1)); done; [ -f "$D/$PEER" ]`)
+			// (each task first prints a piece of text that does not end in a newline: output is no rendez-vous)
+			t := task.FromCommands(`printf 'working on %s ... ' "$ME"; : > "$D/$ME"; n=0; while [ ! -f "$D/$PEER" ] && [ $n -lt 150 ]; do sleep 0.02; n=$((n+1)); done; [ -f "$D/$PEER" ]`)
 			t.Name = "shared"
 			t.Env = variables.FromMap(map[string]string{"D": d})
 			var stages []*scheduler.Stage
